@@ -26,6 +26,7 @@
      "the Regexp stays fully usable afterwards" is C12's runner_ok_preserved, not restated here. *)
 From Verif Require Import Base.Prelude Model.Tree Model.Spec Model.VM Model.Writer Gen.RunnerGen
   Proofs.VMLimitProofs Proofs.VMLimitSimProofs Proofs.VMCapacityProofs.
+From Verif Require Import Gen.CodeGen Gen.EffectGen Proofs.VMEffectProofs.
 
 (* The invariant  tcap <= L (when L >= 0),  |track| <= tcap,  |stack| <= scap  holds in the state
    initMatch builds, is preserved by every opcode step that continues or stops, and therefore
@@ -318,3 +319,94 @@ Theorem C13_dichotomy_for_supported :
     end.
 Proof. exact compile_find_dichotomy. Qed.
 Print Assumptions C13_dichotomy_for_supported.
+(* ---- translator tie: Model/VM.v against the stack-effect table tools/gen reads off runner.go ---- *)
+
+(* Gen/EffectGen.v (regenerated from runner.go's executeDefault on every run) lists, for every case code
+   (opcode | Back | Back2) and every control path of the case body,
+     (track words popped, track words pushed, stack words popped, stack words pushed, exit, flags, crawl)
+   with the helper arities (trackPush1 = 2 words ...) read from the helpers' bodies.  For EVERY program, limit
+   and state whose code position holds a word w, the outcome of the model's step is one of the paths the
+   table lists for the state's case code (eff_case_code w (mode s) = r.operator): by [eff_path_ok] the
+   track / grouping stack / capture-undo stack after the step are the old ones minus the path's popped words
+   plus its number of pushed words (after a cut-back to a saved height where the path calls trackto; only the
+   root word replaced where the path writes runtrack[len-1]), and the step leaves through the path's exit —
+   advance(k): forward mode at pc+k+1; goTo(operand i): forward mode at the i-th operand; backtrack: the frame
+   head np is popped and |np| entered in Back / Back2 mode; return nil: Done.  ErrBacktrackingStackLimit only
+   where a path ends in goTo or backtrack (the two callers of ensureStorage); the model's "unknown opcode"
+   exactly on the case codes the source has no case for.  A source change of what an opcode pushes, pops or
+   where it exits changes the table and breaks this theorem until the model is changed with it. *)
+Theorem C13_step_effects_match_source_table :
+  forall e p L s w,
+    code_at p (pc s) = Some w ->
+    let c := eff_case_code w (mode s) in
+    match step e p L s with
+    | Ok o => exists pt, In pt (eff_paths c) /\ eff_path_ok p pt s o
+    | Err x => x = E_StackLimit /\ exists pt, In pt (eff_paths c) /\ eff_can_fail pt = true
+    | Crash why => why = C_unknown_op <-> eff_is_key c = false
+    | Fuel => True
+    end.
+Proof. exact vm_step_effect_in_table. Qed.
+Print Assumptions C13_step_effects_match_source_table.
+
+(* Coverage, both directions: the model falls into its "unknown opcode" branch exactly when the table has no
+   case for the state's code (the source's default case), for every state; and every key of the table, the
+   default case -1 aside, is an (opcode, entry mode) pair of the model. *)
+Theorem C13_model_and_source_have_the_same_case_codes :
+  (forall e p L s w, code_at p (pc s) = Some w ->
+     (step e p L s = Crash C_unknown_op <-> eff_is_key (eff_case_code w (mode s)) = false)) /\
+  forallb (fun k => (k =? -1) || existsb (fun op => existsb (fun m => k =? op + eff_mode_bits m) eff_all_modes) eff_all_ops)
+          (map fst G_effects_x) = true.
+Proof. split; [exact vm_step_unknown_iff_not_key|exact (proj1 (proj2 eff_dispatch_is_keys))]. Qed.
+Print Assumptions C13_model_and_source_have_the_same_case_codes.
+
+(* The converse at path level: every path the table lists for a case code is the path the model's step takes
+   from some state (the witnesses are found by computation over a small family of candidate states in
+   Proofs/VMEffectProofs.v).  With C13_step_effects_match_source_table: per case code, the control paths of the
+   source and the behaviours of the model are the same set of (pops, pushes, exit, flags, crawl) tuples — a source
+   edit that adds a way through a case body (say a conditional extra push) breaks this theorem. *)
+Theorem C13_source_table_paths_are_model_paths :
+  forall c pts pt,
+    In (c, pts) G_effects_x -> c <> -1 -> In pt pts ->
+    exists e p s w o, code_at p (pc s) = Some w /\ eff_case_code w (mode s) = c /\
+                      step e p (-1) s = Ok o /\ eff_path_ok p pt s o.
+Proof. exact vm_table_paths_are_model_paths. Qed.
+Print Assumptions C13_source_table_paths_are_model_paths.
+
+(* The net form over G_effects (the same table without flags and crawl): a successful step changes the track
+   length by pushed - popped (one more word off, the frame head, when the path falls to backtrack(); no claim
+   on trackto paths, popped = -1), the grouping-stack length by pushed - popped, and leaves by the exit kind. *)
+Theorem C13_step_net_effects_match_source_table :
+  forall e p L s w o,
+    code_at p (pc s) = Some w -> step e p L s = Ok o ->
+    exists t, In t (eff_paths5 (eff_case_code w (mode s))) /\ eff_net_ok p t s o.
+Proof. exact vm_step_net_effect. Qed.
+Print Assumptions C13_step_net_effects_match_source_table.
+
+(* The two generated tables check each other: an opcode one of whose paths pushes track words is counted by
+   opcodeBacktracks (Gen/CodeGen.v) — except Nullmark, the known uncounted pusher; every counted opcode has a
+   case; and no path's net push at its own code position exceeds the weight the capacity argument above gives
+   the opcode (cp_weight: 4 if counted, Goto 0, Nullmark 1, else 0). *)
+Theorem C13_effect_table_agrees_with_backtrack_table :
+  (forallb (fun kv => negb (existsb (fun pt => 0 <? eff_tpush pt) (snd kv)) ||
+                      zmem (Z.land (fst kv) 63) opcode_backtracks_list || (Z.land (fst kv) 63 =? G_Nullmark))
+           G_effects_x = true /\
+   forallb (fun op => eff_is_key op) opcode_backtracks_list = true) /\
+  forallb (fun kv => (fst kv =? -1) || forallb (fun pt => eff_net_push (fst kv) pt <=? cp_weight (fst kv)) (snd kv))
+          G_effects_x = true.
+Proof. split; [exact eff_pushers_are_counted|exact eff_net_push_le_weight]. Qed.
+Print Assumptions C13_effect_table_agrees_with_backtrack_table.
+
+(* non-vacuity: rows of the generated table, and the first step of the example program (Lazybranch at 0:
+   two words pushed, advance(1)) *)
+Example C13_witness_effect_rows :
+  eff_paths 23 = [(0, 2, 0, 0, 1, 0, 0)] /\
+  eff_paths (28 + 128) = [(1, 3, 2, 0, 2, 0, 0); (1, 0, 2, 2, 20, 0, 0)] /\
+  eff_paths5 35 = [(-1, 0, 2, 0, 20)] /\ eff_paths 39 = [] /\
+  (G_eff_trackPush, G_eff_trackPush1, G_eff_trackPush2, G_eff_trackPush3, G_eff_trackPushNeg1, G_eff_trackPushNeg2) = (1, 2, 3, 4, 2, 3).
+Proof. vm_compute. repeat split; reflexivity. Qed.
+Example C13_witness_effect_step :
+  match step c13_env c13_prog (-1) (init_vm c13_prog (-1) 0) with
+  | Ok (Next s') => (pc s', mode s', track s', stack s')
+  | _ => (0, 0, [], [])
+  end = (2, 0, [0; 0], []).
+Proof. vm_compute. reflexivity. Qed.
